@@ -26,7 +26,7 @@ func ResetBetween(p *core.Prog, r *core.Report) {
 		var methods []*ssa.Function
 		for _, f := range p.Funcs {
 			if f.Parent() == nil && f.Signature.Recv() != nil {
-				if n := core.NamedOf(f.Signature.Recv().Type()); n != nil && n.Obj().Name() == tn {
+				if n := core.NamedOf(f.Signature.Recv().Type()); n != nil && core.KnownTypeName(n) == tn {
 					methods = append(methods, f)
 				}
 			}
